@@ -66,7 +66,7 @@ def failing_call(rng, g, bounds, model):
     pos = g.position.resolve()
     ops = ["move", "bypass", "probe", "set_axis", "set_feed_rate", "set_tool_power", "tool_on",
            "power_on", "coolant_on", "tool_change", "halt", "pausestop", "temperature", "enum",
-           "misc", "set_bounds"]
+           "misc", "set_bounds", "transform"]
     op = rng.choice(ops)
 
     def out_of_axes():
@@ -277,6 +277,14 @@ def failing_call(rng, g, bounds, model):
         if which == "set_resolution":
             return which, (float(rng.choice([0, -1])),), {}, op, which + ":nonpositive"
         return "annotate", ("not valid!", "v"), {}, op, "annotate:bad-key"
+    if op == "transform":
+        # validation failures of the coordinate transformer reached through the builder
+        which = rng.choice([("transform.scale", (0.0,), "scale-zero"), ("transform.scale", (2.0, 0.0, 1.0), "scale-zero-y"),
+                            ("transform.scale", (1.0, 2.0, 3.0, 4.0), "scale-4-args"), ("transform.scale", (), "scale-no-args"),
+                            ("transform.rotate", (30.0, "w"), "rotate-bad-axis"),
+                            ("transform.reflect", ([0.0, 0.0, 0.0],), "reflect-zero-normal"),
+                            ("transform.mirror", ("ab",), "mirror-bad-plane")])
+        return which[0], which[1], {}, op, which[2]
     # set_bounds
     step = rng.choice(["unknown-name", "min>=max", "axes-min>=max"])
     if step == "unknown-name":
